@@ -239,8 +239,14 @@ def pytask_execute_task_teardown(session: Session, task: PTask) -> None:
     if is_task_generator(task):
         return
 
-    collect_provisional_products(session, task)
-    missing_nodes = [node for node in tree_leaves(task.produces) if not node.state()]
+    # Provisional products are resolved after the check. Resolving them re-creates the DAG
+    # without the provisional nodes, and the tasks depending on them would no longer be
+    # found as descendants if this task fails here.
+    missing_nodes = [
+        node
+        for node in tree_leaves(task.produces)
+        if not isinstance(node, PProvisionalNode) and not node.state()
+    ]
     if missing_nodes:
         paths = session.config["paths"]
         files = [format_node_name(i, paths).plain for i in missing_nodes]
@@ -248,6 +254,7 @@ def pytask_execute_task_teardown(session: Session, task: PTask) -> None:
             files, "The task did not produce the following files:\n"
         )
         raise NodeNotFoundError(formatted)
+    collect_provisional_products(session, task)
 
 
 @hookimpl(trylast=True)
